@@ -137,6 +137,12 @@ func embeddedDirect() c06direct {
 
 // records given as Go structs whose fields are pointers of several depths (PATCH-style "explicit null": **T with a nil inner pointer),
 // by value and through a pointer; the pools having been reset (internals.ClearPools) before the call; context values passed
+type C06Rec struct {
+	Name string
+	Addr *C06Inner
+	Num  *int // a pointer to a non-struct where the schema has a nested struct
+}
+
 type C06Patch struct {
 	Name **string
 	Age  ***int
@@ -145,7 +151,7 @@ type C06Patch struct {
 
 func pointerRecordsDirect() c06direct {
 	sch := func() *z.StructSchema {
-		return z.Struct(z.Schema{"Name": z.String().Required(), "Age": z.Int(), "Tags": z.Slice(z.String())})
+		return z.Struct(z.Schema{"Name": z.String().Required(), "Age": z.Int(), "Tags": z.Slice(z.String()), "Addr": z.Struct(z.Schema{"Deep": z.Int()}), "Num": z.Struct(z.Schema{"Deep": z.Int()})})
 	}
 	str, num := "n", 7
 	ps, pn := &str, &num
@@ -156,6 +162,7 @@ func pointerRecordsDirect() c06direct {
 	var nilPPN **int
 	tags := []*string{ps, nil}
 	own := []any{
+		C06Rec{Name: "x"}, &C06Rec{}, C06Rec{Addr: &C06Inner{Deep: 1}}, C06Rec{Num: new(int)}, // nil / non-nil pointers where the schema has a nested struct
 		C06Patch{Name: &ps, Age: &ppn, Tags: &tags},
 		C06Patch{Name: &nilS, Age: &nilPN},
 		C06Patch{Name: &nilS, Age: &nilPPN, Tags: new([]*string)},
@@ -167,8 +174,10 @@ func pointerRecordsDirect() c06direct {
 		Name string
 		Age  int
 		Tags []string
+		Addr C06Inner
+		Num  C06Inner
 	}
-	return c06direct{name: "Struct{Name, Age, Tags} reading Go struct records with **string / ***int / *[]*string fields, after internals.ClearPools(), with a context value", own: own,
+	return c06direct{name: "Struct{Name, Age, Tags, Addr{Deep}, Num{Deep}} reading Go struct records with **string / ***int / *[]*string fields, after internals.ClearPools(), with a context value", own: own,
 		run: func(place int, data any) {
 			zinternals.ClearPools()
 			opt := z.WithCtxValue("request", "r1")
